@@ -7,6 +7,7 @@ import (
 	"fmt"
 	"hash/crc32"
 	"math/big"
+	"runtime"
 	"sort"
 	"strings"
 	"testing"
@@ -729,6 +730,34 @@ func TestC01(t *testing.T) {
 	})
 
 	// (2) structured forgeries with a verdict known by construction.
+	// the number of processors is the machine's business: every forgery is rejected (and every control accepted) with
+	// 1, 2, 3, 4, 5, 8 processors in use
+	gen.Direct(t, "forgeries-under-every-processor-count", func(t *testing.T) {
+		defer runtime.GOMAXPROCS(runtime.GOMAXPROCS(0))
+		for pi, procs := range []int{1, 2, 3, 4, 5, 8} {
+			if !gen.ShardOwns(pi) {
+				continue
+			}
+			runtime.GOMAXPROCS(procs)
+			s := gen.NewStream(gen.Seed()+uint64(procs), "c01procs")
+			w := gen.NewWorld(gen.NewPKI(gen.PKISpec{Seed: gen.PKISeeds[procs%len(gen.PKISeeds)]}), s)
+			w.Build()
+			for _, f := range c01Forgeries {
+				q := w.Q.Clone()
+				f.apply(w, q, s)
+				raw := q.Encode()
+				o := w.Options(gen.LvlBase, nil, nil)
+				gen.Eval()
+				v := gen.Call(func() error { return verify.RawTdxQuote(raw, o) })
+				if v.Panicked() || v.Accepted() != (f.expect == "accept") {
+					gen.Fail(t, gen.Violation{Key: fmt.Sprintf("processors:%s:%s", map[bool]string{true: "accepts", false: "rejects"}[v.Accepted()], f.name), Oracle: "accepted <=> header/body signature, hash binding and QE report signature all hold - whatever the number of processors", Detail: fmt.Sprintf("GOMAXPROCS=%d forgery=%s: %s", procs, f.name, v), Replay: withFields(w.CaseFile(gen.LvlBase, raw, nil, nil, f.expect), map[string]any{"gomaxprocs": procs})})
+					return
+				}
+				gen.NonTrivial("c01procs", procs, f.name)
+			}
+			gen.Class(fmt.Sprintf("processors=%d", procs))
+		}
+	})
 	gen.Prop(t, "forgeries", gen.N(5000, 400000), func(t *rapid.T) {
 		w, _ := gen.DrawWorld(t, gen.WorldCfg{MaxAuth: 300, Simple: rapid.Bool().Draw(t, "simple")})
 		oddExt := rapid.IntRange(0, 5).Draw(t, "leafWithOddSgxExtension") == 0
